@@ -67,8 +67,7 @@ type Report struct {
 	Key      string   `json:"key"`
 	Msg      string   `json:"msg"`
 	Stack    string   `json:"stack"`
-	Inputs   [][]byte `json:"inputs"`
-	Extra    string   `json:"extra,omitempty"` // non-[]byte fuzz arguments, rendered
+	Corpus   string   `json:"corpus"` // the fuzz arguments as a `go test fuzz v1` corpus file
 	InputLen int      `json:"input_len"`
 	Alloc    uint64   `json:"alloc_bytes,omitempty"`
 	Bound    uint64   `json:"alloc_bound,omitempty"`
@@ -157,13 +156,52 @@ func runRecovered(fn func() bool) (res result) {
 	return res
 }
 
+// skipMode counts an input that a target deliberately does not hand to one of
+// its decode modes (documented at the call site).
+func skipMode(target, mode string) {
+	stats.Lock()
+	st := stats.m[target+"/"+mode]
+	if st == nil {
+		st = &modeStats{}
+		stats.m[target+"/"+mode] = st
+	}
+	st.Skipped++
+	stats.Unlock()
+}
+
+// corpusFile renders fuzz arguments in the engine's corpus file format.
+func corpusFile(args []any) string {
+	var b strings.Builder
+	b.WriteString("go test fuzz v1\n")
+	for _, a := range args {
+		switch v := a.(type) {
+		case []byte:
+			fmt.Fprintf(&b, "[]byte(%q)\n", v)
+		case string:
+			fmt.Fprintf(&b, "string(%q)\n", v)
+		case uint8:
+			fmt.Fprintf(&b, "uint8(%d)\n", v)
+		case uint16:
+			fmt.Fprintf(&b, "uint16(%d)\n", v)
+		default:
+			panic(fmt.Sprintf("guard: unsupported fuzz argument type %T", a))
+		}
+	}
+	return b.String()
+}
+
 // guard runs one decode under the three oracles. fn reports whether the
-// decoder accepted the input (returned a value rather than an error). extra
-// renders fuzz arguments that are not byte slices (selectors, strings).
-func guard(t *testing.T, target, mode string, fn func() bool, extra string, inputs ...[]byte) {
-	total := len(extra)
-	for _, in := range inputs {
-		total += len(in)
+// decoder accepted the input (returned a value rather than an error). args
+// are the fuzz arguments of the target, in order (for the report / replay).
+func guard(t *testing.T, target, mode string, fn func() bool, args ...any) {
+	total := 0
+	for _, a := range args {
+		switch v := a.(type) {
+		case []byte:
+			total += len(v)
+		case string:
+			total += len(v)
+		}
 	}
 	stats.Lock()
 	st := stats.m[target+"/"+mode]
@@ -172,7 +210,7 @@ func guard(t *testing.T, target, mode string, fn func() bool, extra string, inpu
 		stats.m[target+"/"+mode] = st
 	}
 	stats.n++
-	flush := stats.n%4000 == 0
+	flush := stats.n%1000 == 0
 	stats.Unlock()
 	if flush {
 		flushStats()
@@ -218,7 +256,7 @@ wait:
 		site := fuzzkey.CommonLoopSite(dumps)
 		rep := &Report{Target: target, Mode: mode, Kind: "hang", Key: fuzzkey.Key(target, "hang", "", site),
 			Msg:   fmt.Sprintf("decode did not return after %v CPU / %v wall (budget %v CPU, %v wall)", processCPU()-cpu0, time.Since(wall0).Round(time.Second), hangAfter, 10*hangAfter),
-			Stack: strings.Join(dumps, "\n----\n"), Inputs: inputs, Extra: extra, InputLen: total, HangS: int(hangAfter / time.Second)}
+			Stack: strings.Join(dumps, "\n----\n"), Corpus: corpusFile(args), InputLen: total, HangS: int(hangAfter / time.Second)}
 		writeReport(rep)
 		flushStats()
 		t.Fatalf("VERIF-HANG key=%s after=%v", rep.Key, hangAfter)
@@ -260,7 +298,7 @@ wait:
 		st.Panics++
 		site, _ := fuzzkey.Site(res.stack)
 		rep := &Report{Target: target, Mode: mode, Kind: "panic", Key: fuzzkey.Key(target, "panic", fuzzkey.Class(res.msg), site),
-			Msg: res.msg, Stack: res.stack, Inputs: inputs, Extra: extra, InputLen: total}
+			Msg: res.msg, Stack: res.stack, Corpus: corpusFile(args), InputLen: total}
 		writeReport(rep)
 		if strict {
 			t.Fatalf("VERIF-PANIC key=%s msg=%s\n%s", rep.Key, res.msg, res.stack)
@@ -272,7 +310,7 @@ wait:
 		site, siteBytes, stack := allocSite(fn)
 		rep := &Report{Target: target, Mode: mode, Kind: "alloc", Key: fuzzkey.Key(target, "alloc", "", site),
 			Msg:   fmt.Sprintf("TotalAlloc delta %d B for %d input bytes exceeds bound %d B (largest allocation site %s: %d B)", delta, total, bound, site, siteBytes),
-			Stack: stack, Inputs: inputs, Extra: extra, InputLen: total, Alloc: delta, Bound: bound}
+			Stack: stack, Corpus: corpusFile(args), InputLen: total, Alloc: delta, Bound: bound}
 		writeReport(rep)
 		if strict {
 			t.Fatalf("VERIF-ALLOC key=%s %s", rep.Key, rep.Msg)
@@ -374,7 +412,25 @@ func allocSite(fn func() bool) (site string, bytes int64, stack string) {
 	return site, bestBytes, sb.String()
 }
 
+// isFuzzWorker reports whether this process is a worker of the fuzz engine.
+func isFuzzWorker() bool {
+	for _, a := range os.Args[1:] {
+		if strings.HasPrefix(a, "-test.fuzzworker") {
+			return true
+		}
+	}
+	return false
+}
+
 func TestMain(m *testing.M) {
+	if reportDir != "" && isFuzzWorker() {
+		// The engine starts workers with stdout/stderr on /dev/null, which would
+		// lose the runtime's crash dump of an unrecoverable failure (panic in a
+		// goroutine of the decoder, fatal error). Send fd 2 to a per-process log.
+		if f, err := os.OpenFile(filepath.Join(reportDir, fmt.Sprintf("stderr-%d.log", os.Getpid())), os.O_CREATE|os.O_WRONLY|os.O_APPEND, 0o644); err == nil {
+			_ = syscall.Dup3(int(f.Fd()), 2, 0)
+		}
+	}
 	if mb := envInt("VERIF_FUZZ_AS_MB", 0); mb > 0 {
 		lim := syscall.Rlimit{Cur: uint64(mb) << 20, Max: uint64(mb) << 20}
 		_ = syscall.Setrlimit(syscall.RLIMIT_AS, &lim)
